@@ -38,9 +38,9 @@ RULE = ("case = environment (sync or async, autoescape on/off) with 3 generated 
         "and context variables, __html__ / __format__ objects, pluralize (count expression, named "
         "count, num), message context, trimmed, no variables, direct gettext/ngettext/pgettext/"
         "npgettext calls with keyword variables (new-style) or % / |format (old-style)); SHARED "
-        "STATE (25% of the fragments): every main template imports the generated library slib.j2 "
+        "STATE (24% of the fragments): every main template imports the generated library slib.j2 "
         "(module + Context + eval context cached per environment) whose macros wrap events on their "
-        "probe arguments in scoped constructs: autoescape blocks (constant, mostly the opposite of the "
+        "probe arguments in scoped constructs: autoescape blocks (constant: per case all / half / none of them the opposite of the "
         "environment default / data-dependent incl. a probe as the flag / expression that calls data / "
         "nested / around caller() with the call block's body touching data / inside a loop left by "
         "break + continue (loopcontrols) / around trans, filter, set and with blocks / around sibling "
@@ -52,7 +52,7 @@ RULE = ("case = environment (sync or async, autoescape on/off) with 3 generated 
         "around the global-probe events of the module bodies glib.j2 / incg.j2; eval-context "
         "sensitive filters over probe data and autoescape blocks in the main templates themselves. "
         "SENTINELS: every cached module (slib.j2, lib.j2, glib.j2) carries a `sense` macro that renders "
-        "join / replace / xmlattr / urlize over text + Markup constants, a pass_eval_context filter and "
+        "join / replace / xmlattr over text + Markup constants, a pass_eval_context filter and "
         "a pass_context function reporting eval_ctx.autoescape, a sibling macro call and (new-style "
         "i18n) gettext; zprobe.j2 calls them through import / from-import / an included importer and "
         "is rendered after EVERY fault, before the main templates; + data "
@@ -121,8 +121,8 @@ FLOORS = {
                            "faults_in_scoped_construct_of_cached_module_sync": 450,
                            "faults_in_scoped_construct_of_cached_module_async": 250,
                            "fault_zone:autoescape-block": 600,
-                           "fault_zone:autoescape-block+loopcontrol": 30,
-                           "fault_zone:scoped-evalctx-block": 40,
+                           "fault_zone:autoescape-block+loopcontrol": 20,
+                           "fault_zone:scoped-evalctx-block": 25,
                            "faults_via_module_api": 250}},
     "thorough": {"evaluations": 170000, "distinct": 170000,
                  "counters": {"faults_fired": 170000, "identity_checks": 170000,
@@ -133,7 +133,17 @@ FLOORS = {
                               "faults_fresh_env_in_module_body_async": 9000,
                               "faults_in_i18n_fragment": 20000,
                               "faults_in_i18n_fragment:newstyle:str": 4000,
-                              "faults_in_i18n_fragment:oldstyle:str": 2400}},
+                              "faults_in_i18n_fragment:oldstyle:str": 2400,
+                              "post_fault_sentinel_renders": 170000,
+                              "sentinel_sensitivity_checks": 500,
+                              "faults_in_shared_state_fragment": 25000,
+                              "faults_in_scoped_construct_of_cached_module": 20000,
+                              "faults_in_scoped_construct_of_cached_module_sync": 11000,
+                              "faults_in_scoped_construct_of_cached_module_async": 8500,
+                              "fault_zone:autoescape-block": 17000,
+                              "fault_zone:autoescape-block+loopcontrol": 1100,
+                              "fault_zone:scoped-evalctx-block": 1100,
+                              "faults_via_module_api": 3000}},
 }
 
 SYNC_APIS = ["render", "generate", "stream"]
